@@ -442,6 +442,56 @@ def ctor_case(draw, ctor, dmax=3.8, rmax=0.999, amax=1.8):
     return dict(spec=draw(SPEC[ctor](n, shape, dmax)), pts=draw(testpoints(n, rmax, amax)))
 
 
+@st.composite
+def far_case(draw):
+    """basepoints far from the origin (hyperbolic distance 4..14, i.e. Klein radius up to
+    1 - 1e-12), given directly in hyperboloid-type coordinates so that the input itself is
+    well conditioned"""
+    n = draw(st.integers(1, 4))
+    shape = draw(st.sampled_from([[], [], [2], [1, 2]]))
+    cnt = gen.prod(shape)
+    return dict(n=n, shape=shape, kind=draw(st.sampled_from(["origin_to", "timelike_to",
+                                                              "tv_origin_to"])),
+                t=[draw(fl(4.0, 14.0)) for _ in range(cnt)],
+                u=[draw(sdir(n)) for _ in range(cnt)],
+                w=[draw(sdir(n + 1)) for _ in range(cnt)],
+                scales=[draw(gen.scalars_pm(0.2, 5.0)) for _ in range(cnt)],
+                fo=draw(st.sampled_from([True, False, None])))
+
+
+def body_far(case, ctx):
+    n, shape = case["n"], tuple(case["shape"])
+    t = np.array(case["t"]).reshape(shape)
+    u = np.array(case["u"], dtype=float).reshape(shape + (n,))
+    H = np.concatenate([np.cosh(t)[..., None], np.sinh(t)[..., None] * u], axis=-1)
+    sc = np.array(case["scales"]).reshape(shape)
+    X = H * (np.abs(sc) if case["kind"] == "tv_origin_to" else sc)[..., None]
+    ctx.label("far", "kind=" + case["kind"], "n=%d" % n, "rank=%d" % len(shape), "non-identity",
+              "n>=2" if n >= 2 else "")
+    kw = _fo_kwargs(case["fo"])
+    if case["kind"] == "origin_to":
+        T = Point(X.copy()).origin_to(**kw)
+    elif case["kind"] == "timelike_to":
+        T = hyperbolic.timelike_to(X.copy()[..., None, :] if shape else X.copy(), **kw)
+    else:
+        W = np.array(case["w"], dtype=float).reshape(shape + (n + 1,))
+        # an ambient vector with a sizeable tangential part at H
+        tv = hyperbolic.TangentVector(Point(X.copy()), W * np.cosh(t)[..., None])
+        T = tv.origin_to(**kw)
+    M = np.asarray(T.matrix)
+    ctx.check(M.shape == shape + (n + 1, n + 1), "shape", got=M.shape)
+    ctx.check(np.all(np.isfinite(M)), "finite")
+    J = np.diag([-1.0] + [1.0] * n)
+    fro = np.sum(M * M, axis=(-1, -2))
+    ctx.small("far basepoint: M J M^T = J relative to |M|^2",
+              (M @ J @ np.swapaxes(M, -1, -2) - J) / (1e-9 * fro[..., None, None]), 1.0)
+    from ..num import proj_dist
+    ctx.small("far basepoint: the origin is sent to the point", proj_dist(M[..., 0, :], H), 1e-9)
+    if case["fo"] is not False:
+        ctx.check(np.all(np.linalg.slogdet(M)[0] > 0) if case["fo"] else True,
+                  "force_oriented gives positive determinant")
+
+
 # --------------------------------------------------------------------------- builders
 def _fo_kwargs(fo):
     return {} if fo is None else {"force_oriented": fo}
@@ -929,7 +979,9 @@ def body_causal(case, ctx):
 
 # --------------------------------------------------------------------------- Coxeter
 def coxeter_exhaustive(tier):
-    labs = [2, 3, 4, 5, 6, 7, 8, 0] if tier == "thorough" else [2, 3, 4, 5, 7, 0]
+    # infinity is written 0 or negative (both spellings: a representation built from a
+    # form in which one spelling is mistaken for a finite label can be singular)
+    labs = [2, 3, 4, 5, 6, 7, 8, 0, -1] if tier == "thorough" else [2, 3, 4, 5, 7, 0, -1]
     pts = dict(int=[[0.3, -0.2], [-0.5, 0.1], [0.0, 0.7]], int_scales=[1.0, -2.0, 0.5],
                ideal=[[[0.6, 0.8], 1.0], [[-1.0, 0.0], -3.0]],
                ext=[dict(a=0.5, d=[0.0, 1.0], s=1.0), dict(a=-1.2, d=[0.8, -0.6], s=-2.0)])
@@ -978,6 +1030,8 @@ LAWS = [
     _ctor_law("coxeter_hyperbolic_rep", 80, 400, exhaustive=coxeter_exhaustive),
     Law("program_preserves_form_and_distance", program_case(), body_program, nt_program,
         quick=200, thorough=1000, shards=(2, 8)),
+    Law("far_basepoints_preserve_form", far_case(), body_far, nt_ctor, quick=150, thorough=1000,
+        shards=(1, 4)),
     Law("causal_character_preserved", causal_case(), body_causal, nt_ctor, quick=150,
         thorough=700, shards=(1, 4)),
 ]
